@@ -64,7 +64,8 @@ class FakeWorld:
             f.set_exception(EXC[self.cfg.get("exc", "task")](i))
         else:
             self.trace.append(["D", i])
-            f.set_result(("r", f._value))
+            self.current = i           # the reducer runs inside the completion callback: it is told whose result this is
+            f.set_result(None if i in self.cfg.get("nones", []) else ("r", f._value))
 
     def apply(self, step, among=None):
         for r in step["comp"]:
@@ -155,8 +156,9 @@ def run_real_pmap(cfg):
     reduced = []
 
     def reduce_func(res):
-        reduced.append(res[1])
-        w.trace.append(["R", res[1]])
+        idx = res[1] if res is not None else w.current      # a task may legitimately return None
+        reduced.append(idx)
+        w.trace.append(["R", idx])
         if cfg["stop_after"] is None:
             return None
         return cfg["stop_after"] - len(reduced)
@@ -242,10 +244,10 @@ def run_real_serial(cfg):
             clock["t"] += sched.pop(0)["tick"]
         if v in cfg["raises"]:
             raise TaskError(v)
-        return ("r", v)
+        return None if v in cfg.get("nones", []) else ("r", v)
 
     def reduce_func(res):
-        reduced.append(res[1])
+        reduced.append(res[1] if res is not None else ran[-1])
         if cfg["stop_after"] is None:
             return None
         return cfg["stop_after"] - len(reduced)
@@ -385,6 +387,8 @@ def gen_cfg(rng, tier):
            "reducer": reducer, "stop_after": stop_after, "timeout": timeout,
            "drain": bool(rng.random() < 0.7), "sched": sched}
     cfg["exc"] = str(rng.choice(["task", "task", "timeout", "cancelled", "value"]))
+    # with a reducer, some tasks return None (a legitimate result that the reducer must still be handed)
+    cfg["nones"] = sorted(set(int(x) for x in rng.integers(0, max(n, 1), size=int(rng.choice([0, 0, 1, 3]))))) if (reducer and n) else []
     cfg["frontend"] = bool(cfg["drain"] and rng.random() < 0.5)
     return cfg
 
